@@ -221,6 +221,17 @@ def _type_arg_not_nsec(ctx: Any, f: FuncInfo, a: Optional[ast.AST], depth: int =
             if not ok:
                 return False, why
         return True, 'constant at every call site'
+    if isinstance(a, ast.Name):
+        # a loop variable over a literal tuple / list of constants stands for each of them
+        loops = [lp for lp in walk_local_ordered(f.node) if isinstance(lp, (ast.For, ast.comprehension)) and isinstance(lp.target, ast.Name) and lp.target.id == a.id]
+        stores = [x for x in walk_local_ordered(f.node) if isinstance(x, ast.Name) and x.id == a.id and isinstance(x.ctx, ast.Store)]
+        if loops and len(stores) == len(loops) and all(isinstance(lp.iter, (ast.Tuple, ast.List)) and lp.iter.elts for lp in loops):
+            for lp in loops:
+                for el in lp.iter.elts:
+                    ok, why = _type_arg_not_nsec(ctx, f, el, depth + 1)
+                    if not ok:
+                        return False, why
+            return True, 'loop variable over constants'
     return False, f'`{norm(a)}` is not a constant'
 
 
